@@ -26,6 +26,7 @@ from liquid2.builtin import Identifier
 from liquid2.builtin import StringLiteral
 from liquid2.builtin import parse_string_or_identifier
 from liquid2.builtin import string_or_identifier_str
+from liquid2.exceptions import LiquidError
 from liquid2.exceptions import LiquidSyntaxError
 from liquid2.exceptions import RequiredBlockError
 from liquid2.exceptions import StopRender
@@ -231,7 +232,14 @@ class BlockNode(Node):
             block_scope=True,
         )
 
-        return stack_item.block.block.render(ctx, buffer)
+        try:
+            return stack_item.block.block.render(ctx, buffer)
+        except LiquidError as err:
+            # The block's nodes come from the template that defines the block,
+            # which is not the base template being rendered.
+            if not err.template_name:
+                err.template_name = stack_item.source_name
+            raise
 
     async def render_to_output_async(
         self, context: RenderContext, buffer: TextIO
@@ -284,7 +292,12 @@ class BlockNode(Node):
             carry_loop_iterations=True,
             block_scope=True,
         )
-        return await stack_item.block.block.render_async(ctx, buffer)
+        try:
+            return await stack_item.block.block.render_async(ctx, buffer)
+        except LiquidError as err:
+            if not err.template_name:
+                err.template_name = stack_item.source_name
+            raise
 
     def children(
         self,
@@ -404,7 +417,12 @@ class BlockDrop(Mapping[str, object]):
                 )
             }
         ):
-            self.parent.block.block.render(self.context, buf)
+            try:
+                self.parent.block.block.render(self.context, buf)
+            except LiquidError as err:
+                if not err.template_name:
+                    err.template_name = self.parent.source_name
+                raise
 
         if self.context.auto_escape:
             return Markupsafe(buf.getvalue())
